@@ -112,6 +112,11 @@ fn alphabet() -> Vec<Value> {
         call("files", "/", ""),
         call_ls("append_line", "/f", &["L"]),
         call_ls("write_lines", "/g", &["a", "b"]),
+        // composite calls (several guards by design): only used by directed programs, judged by the linearizability search
+        call_b("chown_b", "/a", "", 5, 0, "", "u"),
+        call_b("chown_b", "/a", "", 0, 7, "", "g"),
+        call_b("chmod_b", "/a", "", 0o700, 0, "", "d"),
+        call_b("chmod_b", "/", "", 0, 0o600, "", "f"),
     ]
 }
 
@@ -292,20 +297,21 @@ fn main() {
         })));
     }
     let alpha = alphabet();
+    let nsingle = alpha.len() - 4; // the composite calls at the end are for directed programs only
     let mut rng = StdRng::seed_from_u64(seed.wrapping_mul(31).wrapping_add(7));
     let mut pid = 0u64;
     let mut total = 0usize;
     match mode.as_str() {
         "guards" => {
             // every call of the alphabet alone: its guard sequence (kinds) and count
-            for c in &alpha {
+            for c in &alpha[..nsingle] {
                 pid += 1;
                 total += explore(&sh, &[vec![c.clone()]], &mut out, pid, &pr, 10);
             }
         },
         "all2x1" => {
-            for a in &alpha {
-                for b in &alpha {
+            for a in &alpha[..nsingle] {
+                for b in &alpha[..nsingle] {
                     pid += 1;
                     if (pid - 1) % stride != 0 || ((pid - 1) / stride) % workers != worker {
                         continue;
@@ -325,7 +331,7 @@ fn main() {
             };
             for k in 0..n {
                 // same programs whatever the worker split
-                let prog: Vec<Vec<Value>> = (0..th).map(|_| (0..len).map(|_| alpha[rng.gen_range(0..alpha.len())].clone()).collect()).collect();
+                let prog: Vec<Vec<Value>> = (0..th).map(|_| (0..len).map(|_| alpha[rng.gen_range(0..nsingle)].clone()).collect()).collect();
                 pid += 1;
                 if k % workers != worker {
                     continue;
@@ -362,7 +368,7 @@ fn main() {
                         let mut rng = StdRng::seed_from_u64(s2);
                         let mut log = vec![];
                         for _ in 0..ncalls {
-                            let c = alpha2[rng.gen_range(0..alpha2.len())].clone();
+                            let c = alpha2[rng.gen_range(0..alpha2.len() - 4)].clone();
                             let r = apply(&*m2, &c);
                             log.push((c, r));
                         }
